@@ -483,9 +483,16 @@ static int record(const json &plan) {
     size_t events = 0;
     const int nmaxBase = nmax;
     const int bigEvery = plan.value("big_every", 0);
-    for (int h = 0; h < histories; ++h) {
+    // "dense" histories: a large graph (sizes given by the plan) filled with many edges first,
+    // so that vertices of high degree, indices beyond 32 / 64 and large label maps occur
+    const std::vector<int> dense = plan.value("dense", std::vector<int>{});
+    const int totalHistories = histories + (int)dense.size();
+    for (int h = 0; h < totalHistories; ++h) {
+        const bool isDense = h >= histories;
+        const int denseN = isDense ? dense[h - histories] : 0;
         // every big_every-th history runs on a larger graph (up to twice the vertices)
-        const int nmax = (bigEvery && h % bigEvery == bigEvery - 1) ? nmaxBase * 2 : nmaxBase;
+        const int nmax = isDense ? denseN : (bigEvery && h % bigEvery == bigEvery - 1) ? nmaxBase * 2 : nmaxBase;
+        const int steps = isDense ? denseN * 4 + 60 : plan.value("steps", 100);
         std::unique_ptr<IObj> o = facs[famIdx]();
         os << json({{"c", {{"op", "reset"}}}}).dump() << "\n";
         json hist = json::array();
@@ -494,6 +501,12 @@ static int record(const json &plan) {
             json c;
             // first call of a history: give the graph some vertices
             std::string op = (s == 0) ? "resize" : ops[pick(ops.size())];
+            if (isDense && s > 0 && s < denseN * 3 && pick(8) != 0) {
+                // filling phase: mostly insertions (a hub first, then everywhere)
+                op = (kind == "multi" && pick(2)) ? "addMultiedge" : "addEdge";
+                if (std::find(ops.begin(), ops.end(), op) == ops.end())
+                    op = "addEdge";
+            }
             auto vert = [&]() -> int {
                 if (!bad.empty() && pick(12) == 0) {
                     int b = bad[pick(bad.size())];
@@ -506,7 +519,7 @@ static int record(const json &plan) {
                 op = "resize";
             c["op"] = op;
             if (op == "resize") {
-                int k = (s == 0) ? (int)pick(nmax + 1) : n + (int)pick(nmax - n + 1);
+                int k = (s == 0) ? (isDense ? nmax : (int)pick(nmax + 1)) : n + (int)pick(nmax - n + 1);
                 if (!bad.empty() && n > 0 && pick(6) == 0)
                     k = (int)pick(n); // invalid: shrinking
                 c["k"] = k;
@@ -517,6 +530,8 @@ static int record(const json &plan) {
             } else {
                 c["i"] = vert();
                 c["j"] = pick(5) == 0 ? c["i"].get<int>() : vert(); // favour self-loops a little
+                if (isDense && s < denseN * 3 && n > 2 && pick(3) == 0)
+                    c[pick(2) ? "i" : "j"] = n - 2; // a hub among the highest indices
                 bool f = forces[pick(forces.size())];
                 if (op == "addEdge") {
                     if (kind == "labeled" || kind == "nolabel")
